@@ -37,6 +37,16 @@ def rnd(R):
     m = R.mag
     return sym(up(U32 * m + ETA32))
 
+def ulp32(mag):
+    """one unit in the last place of the binary32 numbers of magnitude <= mag"""
+    if mag <= 2.0 ** -126: return 2.0 ** -149
+    if mag == INF: return INF
+    return math.ldexp(1.0, math.frexp(mag)[1] - 1 - 23)
+
+def libm_err(D0):
+    """A-libm: the libm result is within 1 ulp of the exact value (exact value in D0)"""
+    return sym(ulp32(D0.mag))          # ulp of the exact value's binade
+
 def i_log2(a):
     return i_ln(a) / LN2
 
@@ -64,13 +74,19 @@ class Helpers:
         self._cache = {}
         self.pow = self.exp = None
         for name in ('powf', 'expf'):
-            key = [k for k, f in self.crate.fns.items() if f['def'] in ('yuvxyb_math::' + name, name, 'pow_exp::' + name) or f['def'].endswith('::' + name)]
-            if not key:
+            key = [k for k, f in self.crate.fns.items() if f['def'].split('::')[-1] == name and not f.get('closure') and k.split('::')[-1] == name]
+            if len(key) != 1:
+                self.fail[name] = f"structure of {name} not recognised: {len(key)} candidate functions"
                 continue
             formals, body, _ = summary(it, key[0])
-            libm = not any(n.op in ('cast:bits', 'ftoi_unchecked') for n in X.walk(body))
+            want = {'powf': 'call:libm_powf', 'expf': 'call:libm_exp'}[name]
+            libm = body.op == want and len(body.args) == len(formals) and all(a is f for a, f in zip(body.args, formals))
             self.kind[name] = 'libm' if libm else 'poly'
             if libm:
+                continue
+            if not any(n.op in ('cast:bits', 'ftoi_unchecked') for n in X.walk(body)):
+                self.kind[name] = 'other'
+                self.fail[name] = f"structure of {name} not recognised: neither the libm call on its arguments nor the polynomial routine"
                 continue
             try:
                 if name == 'powf':
@@ -141,8 +157,8 @@ class Helpers:
         if Vy.lo != Vy.hi and not (Vb.lo == Vb.hi and Vb.lo > 0):
             raise Unsupported('pow with interval base and exponent')
         V = self._ideal_pow(Vb, Vy); D0 = self._ideal_pow(I(max(Rb.lo, 0.0), max(Rb.hi, 0.0)), Ry)
-        D = D0 + rnd(D0) + rnd(D0)                      # libm powf within 1 ulp (A-libm)
-        return V, self._shift(V, Vb, Eb, Rb, Vy, Ey, Ry) + rnd(D0) + rnd(D0), D
+        D = D0 + libm_err(D0)                           # libm powf within 1 ulp (A-libm)
+        return V, self._shift(V, Vb, Eb, Rb, Vy, Ey, Ry) + libm_err(D0), D
 
     @staticmethod
     def _ideal_pow(B, Y):
@@ -157,10 +173,16 @@ class Helpers:
         """b~^y~ - b^y of the ideal function, b~ = b + eb in Rb, y~ = y + ey in Ry"""
         if _zero(Eb) and _zero(Ey):
             return ZERO
+        coarse = lambda: self._ideal_pow(I(max(Rb.lo, 0.0), max(Rb.hi, 0.0)), Ry) - V
         if Vb.lo <= 0:
-            return self._ideal_pow(I(max(Rb.lo, 0.0), max(Rb.hi, 0.0)), Ry) - V
+            return coarse()
         ratio = Eb / Vb
-        if ratio.lo <= -1: raise Unsupported('argument error as large as the argument')
+        q = Rb / Vb                                   # b~/b lies in both enclosures
+        lo_r, hi_r = max(1 + ratio.lo, q.lo), min(1 + ratio.hi, q.hi)
+        if lo_r > hi_r: lo_r, hi_r = min(1 + ratio.lo, q.lo), max(1 + ratio.hi, q.hi)
+        if lo_r <= 0:
+            return coarse()
+        ratio = I(lo_r, hi_r) - ONE
         ex = Ry * i_ln(ONE + ratio) + Ey * i_ln(Vb)
         return V * (i_exp(ex) - ONE)
 
@@ -170,9 +192,11 @@ class Helpers:
         V = self._ideal_pow(Vb, Vy) if (Vy.lo == Vy.hi or (Vb.lo == Vb.hi and Vb.lo > 0)) else None
         if V is None:
             raise Unsupported('pow with interval base and exponent')
+        if 'powf' in self.fail:
+            raise Unsupported(self.fail['powf'])
         if self.kind.get('powf') == 'libm':
             return self.libm_pow(Vb, Eb, Rb, Vy, Ey, Ry)
-        if 'powf' in self.fail or self.pow is None:
+        if self.pow is None:
             raise Unsupported(self.fail.get('powf', 'no powf helper found'))
         c = self.pow
         bt, yt = Rb, Ry
@@ -251,9 +275,11 @@ class Helpers:
 
     def expf(self, Va, Ea, Ra):
         V = i_exp(Va)
+        if 'expf' in self.fail:
+            raise Unsupported(self.fail['expf'])
         if self.kind.get('expf') == 'libm':
             D0 = i_exp(Ra)
-            return V, V * (i_exp(Ea) - ONE) + rnd(D0) + rnd(D0), D0 + rnd(D0) + rnd(D0)
+            return V, V * (i_exp(Ea) - ONE) + libm_err(D0), D0 + libm_err(D0)
         if 'expf' in self.fail or self.exp is None:
             raise Unsupported(self.fail.get('expf', 'no expf helper found'))
         if Ra.lo < -85 or Ra.hi > 85 or not math.isfinite(self.exp['bound']):
@@ -399,13 +425,13 @@ def errprop(e, env, H: Helpers):
             if Va.lo <= 0 or Ra.lo <= 0: raise Unsupported('logarithm of a possibly non-positive value')
             fn = i_ln if op == 'call:libm_ln' else i_log10
             V = fn(Va); D0 = fn(Ra)
-            D = D0 + rnd(D0) + rnd(D0)                 # libm within 1 ulp (A-libm)
+            D = D0 + libm_err(D0)                      # libm within 1 ulp (A-libm)
             sh = i_ln(ONE + Ea / Va)
             if op == 'call:libm_log10': sh = sh / I(dn(math.log(10.0)), up(math.log(10.0)))
-            r = fin(V, sh + rnd(D0) + rnd(D0), D)
+            r = fin(V, sh + libm_err(D0), D)
         elif op == 'call:libm_exp':
             Va, Ea, Ra = rec(n.args[0]); V = i_exp(Va); D0 = i_exp(Ra)
-            r = fin(V, V * (i_exp(Ea) - ONE) + rnd(D0) + rnd(D0), D0 + rnd(D0) + rnd(D0))
+            r = fin(V, V * (i_exp(Ea) - ONE) + libm_err(D0), D0 + libm_err(D0))
         elif op == 'call:libm_powf' or (op == 'app' and n.args[0].split('::')[-1] == 'powf'):
             args = n.args[1:] if op == 'app' else n.args
             (Vb, Eb, Rb), (Vy, Ey, Ry) = rec(args[0]), rec(args[1])
